@@ -104,6 +104,11 @@ func NewProcess(opts ...ProcOpts) *Process {
 
 func (p *Process) run() int {
 	verifGate(p, "run.precheck")
+	if p.procRunCtx.Err() != nil {
+		// stopped before it was started: there is nothing left to terminate
+		p.setState(types.ProcessStateCompleted)
+		return 0
+	}
 	if p.isState(types.ProcessStateTerminating) {
 		return 0
 	}
@@ -348,6 +353,14 @@ func (p *Process) isStarted() bool {
 	return p.started
 }
 
+// isPendingInstance reports whether this instance is still waiting to be started.
+// The reported status is shared by all instances of a process name, so it cannot tell.
+func (p *Process) isPendingInstance() bool {
+	p.Lock()
+	defer p.Unlock()
+	return !p.started && !p.done
+}
+
 func (p *Process) waitForCompletion() int {
 	p.Lock()
 	defer p.Unlock()
@@ -411,7 +424,7 @@ func (p *Process) stopProcess(cancelReadinessFuncs bool) error {
 		log.Debug().Msgf("process %s is in state %s not shutting down", p.getName(), p.getStatusName())
 		verifGate(p, "stop.checked.notrunning")
 		// prevent pending process from running
-		if p.isOneOfStates(types.ProcessStatePending) {
+		if p.isPendingInstance() {
 			p.onProcessEnd(types.ProcessStateTerminating)
 		}
 		return nil
